@@ -184,6 +184,8 @@ theorem pure_eq {α : Type} (a : α) : (pure a : Out α) = .ok a := rfl
 
 theorem ofInterp_panic {α : Type} {r : Interp.Out α} {s : String} (h : ofInterp r = .panic s) : r = .panic s := by
   cases r <;> simp [ofInterp] at h ⊢; exact h
+theorem ofExtends_panic {α : Type} {r : Extends.Out α} {s : String} (h : ofExtends r = .panic s) : r = .panic s := by
+  cases r <;> simp [ofExtends] at h ⊢; exact h
 theorem ofMerge_panic {α : Type} {st : String} {r : Merge.Out α} {s : String} (h : ofMerge st r = .panic s) : r = .panic s := by
   cases r <;> simp [ofMerge] at h ⊢; exact h
 theorem ofShort_panic {α : Type} {r : Short.Out α} {s : String} (h : ofShort r = .panic s) : r = .panic s := by
